@@ -244,15 +244,29 @@ def run_cases(name, preamble, cases, chunk=400, timeout=900):
         return sh("ulimit -s unlimited 2>/dev/null; timeout %d coqc -Q theories XV -Q cases XVC %s 2>&1" %
                   (timeout, os.path.relpath(fn, COQ)), cwd=COQ, timeout=timeout + 30)
     bad, log = [], ""
+
+    def read(k, rc, out):
+        flat = " ".join(out.split()).replace("%nat", "")
+        m = re.search(r"= \((\d+), \[([0-9; ]*)\]\)", flat)
+        if rc != 0 or not m or int(m.group(1)) != len(chunks[k]):
+            return None
+        return [k * chunk + int(x) for x in m.group(2).split(";") if x.strip()]
     with ThreadPoolExecutor(NCPU) as ex:
-        for k, (rc, out) in enumerate(ex.map(one, files)):
-            flat = " ".join(out.split()).replace("%nat", "")
-            m = re.search(r"= \((\d+), \[([0-9; ]*)\]\)", flat)
-            if rc != 0 or not m or int(m.group(1)) != len(chunks[k]):
-                log += "\n[chunk %d] rc=%s\n%s" % (k, rc, out[-1500:])
-                bad.extend(range(k * chunk, k * chunk + len(chunks[k])))
-                continue
-            bad.extend(k * chunk + int(x) for x in m.group(2).split(";") if x.strip())
+        results = list(ex.map(one, files))
+    for k, (rc, out) in enumerate(results):
+        got = read(k, rc, out)
+        tries = 0
+        while got is None and tries < 2:
+            # an evaluation that did not finish (time limit or memory on a loaded machine) says nothing about model and
+            # code: the chunk is evaluated again, alone
+            tries += 1
+            rc, out = one(files[k])
+            got = read(k, rc, out)
+        if got is None:
+            log += "\n[chunk %d] rc=%s (after %d more attempts)\n%s" % (k, rc, tries, out[-1500:])
+            bad.extend(range(k * chunk, k * chunk + len(chunks[k])))
+            continue
+        bad.extend(got)
     for f in os.listdir(CASES):
         if f.startswith(name + "_") and not (log and f.endswith(".v")):
             try:
